@@ -11,6 +11,20 @@ from harness.props import yanny_gen as G
 ID = 'C01'
 PROPS_V = 'C01/Props.v'
 LEVEL = 'proof'
+def translate(ctx):
+    # regex literals, type-name tables and the quoting condition of yanny.py -> Generated/YannyLits.v
+    # (compared with the literals the scanners were written for by C01_source_*_are_the_scanners)
+    import os
+    from translate import c01 as T
+    text, info = T.generate(C.REPO)
+    if text is not None:
+        info['changed'] = C.write_if_changed(os.path.join(C.COQ, 'Generated', 'YannyLits.v'), text)
+    else:
+        info['restored_committed_file'] = C.restore_generated('coq/Generated/YannyLits.v')
+        info['note'] = 'a regex of yanny.py is no longer a plain literal: committed Generated/YannyLits.v kept; the correspondence run alone ties scanners to code'
+    return {'YannyLits': info}
+
+
 TRUSTED = [
     'hand-written models coq/Yanny/Render.v (dtype_to_struct + write) and coq/Yanny/Parse.v (_parse and helpers; every regex '
     'transliterated into a scanner) -- tied to the code by exact correspondence on every run: file bytes = render, '
